@@ -49,7 +49,8 @@ def gen_one(r, i, tier):
     g = gen.G(r, dyadic=True, max_depth=2, vecbags=False)
     for _ in range(50):
         inner = g.spec(depth=1)
-        root_kind = r.choice(["Branch", "Index", "Label", "UntypedLabel", "Bin", "Fraction", "IrregularlyBin"])
+        root_kind = r.choice(["Branch", "Index", "Label", "UntypedLabel", "Bin", "Fraction", "IrregularlyBin",
+                              "Stack", "CentrallyBin"])
         if root_kind in ("Branch", "Index"):
             spec = {"k": root_kind, "values": [inner, inner] + ([inner] if r.random() < 0.3 else [])}
         elif root_kind in ("Label", "UntypedLabel"):
@@ -59,6 +60,10 @@ def gen_one(r, i, tier):
                     "under": {"k": "Count"}, "over": {"k": "Count"}, "nan": {"k": "Count"}}
         elif root_kind == "Fraction":
             spec = {"k": "Fraction", "q": g.q(["<", ["f", 0], ["c", 1.0]]), "value": inner}
+        elif root_kind == "Stack":
+            spec = {"k": "Stack", "edges": [0.0, 1.0], "q": g.q(["f", 0]), "value": inner, "nan": {"k": "Count"}}
+        elif root_kind == "CentrallyBin":
+            spec = {"k": "CentrallyBin", "centers": [0.0, 1.0, 2.0], "q": g.q(["f", 0]), "value": inner, "nan": {"k": "Count"}}
         else:
             spec = {"k": "IrregularlyBin", "edges": [0.0, 1.0], "q": g.q(["f", 0]), "value": inner, "nan": {"k": "Count"}}
         if r.random() < 0.4:   # one more level: cousins
